@@ -216,6 +216,11 @@ def main():
     import gen_c15_dispatch
     counts, miss = gen_c15_dispatch.generate(REPO)
     vals.update(counts)      # C15_QUERY_TYPES, C15_MESSAGE_KINDS, C15_QUERY_ACTIONS
+    # C16: KademliaHandle API, command / event enums, dispatch of the Kademlia event loop -> coq/gen/C16Tables.v
+    import gen_c16_tables
+    counts, miss = gen_c16_tables.generate(REPO)
+    vals.update(counts)      # C16_COMMANDS, C16_EVENTS, C16_HANDLE_METHODS
+    missing += list(miss)
     # C04: error-kind table and mapping flags -> coq/gen/C04Tables.v (sibling script)
     import gen_c04_tables
     counts, miss = gen_c04_tables.generate(REPO)
